@@ -121,7 +121,30 @@ impl Prop for C07 {
         let mut shape = if rng.chance(1, 8) { ShapeCfg::tiny() } else { ShapeCfg::swarm(rng) };
         shape.max_str = shape.max_str.min(300); // keep header+attributes around <= 2 KiB so the per-message space is small
         shape.max_attrs = shape.max_attrs.min(8);
-        let stream = gen_stream(rng, &shape);
+        let mut stream = gen_stream(rng, &shape);
+        // 1 message in 12 carries one long value (beyond 8 KiB / 16 KiB / at the 16-bit limit): a fault in the middle
+        // of a long read_exact, possibly served by several reads
+        if rng.chance(1, 12) {
+            let n = *rng.pick(&[8193usize, 12_000, 16_385, 40_000, 65_535]);
+            let body: Vec<u8> = (0..n).map(|i| b'a' + (i % 23) as u8).collect();
+            let attr = crate::refcodec::WAttr { name: b"document-description".to_vec(), values: vec![crate::refcodec::WVal::Scalar { tag: 0x41, body }] };
+            match &mut stream {
+                Stream::Wire(w) => {
+                    if w.groups.is_empty() {
+                        w.groups.push(crate::refcodec::WGroup { tag: 0x01, attrs: vec![] });
+                    }
+                    let gi = rng.usize(0, w.groups.len() - 1);
+                    let at = rng.usize(0, w.groups[gi].attrs.len());
+                    w.groups[gi].attrs.insert(at, attr);
+                }
+                Stream::Model(m) => {
+                    if let Some(g) = m.groups.first_mut() {
+                        g.attrs.push(("document-description".into(), crate::gen::MValue::TextWithoutLanguage("x".repeat(n))));
+                    }
+                }
+                Stream::Raw(_) => {}
+            }
+        }
         let mode = *rng.pick(&Mode::ALL);
         let (head_len, toks) = match &stream {
             Stream::Wire(w) => {
@@ -133,7 +156,11 @@ impl Prop for C07 {
         let opts = TraceOpts { is_async: mode.is_async(), eintr: true, pend: true, after: true, cross: false, max_events: 4096 };
         // fragmentation 0: whole; 1: one byte at a time (the fault lands inside a partially filled read_exact);
         // 2: seeded
-        let ones: Vec<Ev> = (0..head_len.min(4096)).map(|_| Ev::Give(1)).collect();
+        // (for long messages byte-at-a-time delivery is kept to the first 4096 bytes, then 1460-byte segments)
+        let mut ones: Vec<Ev> = (0..head_len.min(4096)).map(|_| Ev::Give(1)).collect();
+        if head_len > 4096 {
+            ones.extend((0..(head_len - 4096) / 1460 + 1).map(|_| Ev::Give(1460)));
+        }
         let (_, seeded) = gen_trace(rng, head_len, head_len, &toks, &opts);
         let frags = vec![vec![], ones, seeded];
         let positions = match tier {
@@ -145,6 +172,15 @@ impl Prop for C07 {
                 for _ in 0..32 {
                     let o = if !edge.is_empty() && rng.chance(2, 3) { *rng.pick(&edge) } else { rng.usize(0, head_len.max(1) - 1) };
                     p.push(o as u32);
+                }
+                // inside long tokens: a few offsets past the 8 KiB / 16 KiB marks of the token
+                for t in toks.iter().filter(|t| t.end - t.start > 8192) {
+                    for d in [1usize, 4096, 8192, 8193, 16384, 16385, 30_000] {
+                        if t.start + d < t.end {
+                            p.push((t.start + d) as u32);
+                        }
+                    }
+                    p.push((t.end - 1) as u32);
                 }
                 p.push(0);
                 p.push(head_len.saturating_sub(1) as u32);
